@@ -15,9 +15,11 @@ import (
 	"github.com/sdcio/yang-parser/xpath"
 )
 
-var c03Ops = []string{"or", "and", "=", "!=", "<", "<=", ">", ">=", "+", "-", "*", "div", "mod"}
-var c03OpSets = [][]int{{0, 1, 2, 3, 4, 5, 6, 7, 8, 9, 10, 11, 12}, {0, 2, 4, 8, 10, 11}}
-var c03Prec = []int{1, 2, 3, 3, 4, 4, 4, 4, 5, 5, 6, 6, 6}
+var c03Ops = []string{"or", "and", "=", "!=", "<", "<=", ">", ">=", "+", "-", "*", "div", "mod", "|"}
+var c03OpSets = [][]int{{0, 1, 2, 3, 4, 5, 6, 7, 8, 9, 10, 11, 12}, {0, 2, 4, 8, 10, 11}, {0, 2, 4, 9, 10, 13}, {0, 1, 2, 3, 4, 5, 6, 7, 8, 9, 10, 11, 12, 13}}
+var c03Prec = []int{1, 2, 3, 3, 4, 4, 4, 4, 5, 5, 6, 6, 6, 8}
+
+const c03Union = 13
 
 var c03Operands = [][]string{
 	{"2"}, {"'s'"}, {"a"}, {"not", "(", "b", ")"}, {"(", "3", ")"}, {"b"},
@@ -32,6 +34,32 @@ type c03Expr struct {
 func parenthesise(operands []string, ops []int) string {
 	pos := 0
 	return climbFrom(&pos, operands, ops, 1)
+}
+
+// parenthesiseUnion: operands[i] are bare operand texts, neg[i] says whether a unary
+// minus is written before operand i.  Union binds tighter than unary minus, so the
+// minus written before the first operand of a union chain negates the whole chain.
+func parenthesiseUnion(bare []string, neg []bool, ops []int) string {
+	var units []string
+	var rest []int
+	i := 0
+	for i < len(bare) {
+		chain := bare[i]
+		n := neg[i]
+		for i < len(ops) && ops[i] == c03Union {
+			chain = "(" + chain + " | " + bare[i+1] + ")"
+			i++
+		}
+		if n {
+			chain = "(- " + chain + ")"
+		}
+		units = append(units, chain)
+		if i < len(ops) {
+			rest = append(rest, ops[i])
+		}
+		i++
+	}
+	return parenthesise(units, rest)
 }
 
 func climbFrom(pos *int, operands []string, ops []int, minPrec int) string {
@@ -99,6 +127,8 @@ func VerifH_C03_Precedence() {
 	opset := c03OpSets[vrt.Param("opset", 0)]
 	var toks []string     // flat token list of the unparenthesised text
 	var operands []string // operand texts for the parenthesiser
+	var bare []string
+	var negs []bool
 	var ops []int
 	for i := 0; i < n; i++ {
 		var o []string
@@ -108,7 +138,12 @@ func VerifH_C03_Precedence() {
 			o = c03Operands[vrt.Choice("operand"+strconv.Itoa(i), kinds)]
 		}
 		neg := vrt.Choice("neg"+strconv.Itoa(i), 2)
+		if i > 0 && ops[i-1] == c03Union {
+			vrt.Assume(neg == 0) // "a | - b" is not an expression: a union operand is a path
+		}
 		text := join(o, func(int) string { return " " })
+		bare = append(bare, text)
+		negs = append(negs, neg == 1)
 		if neg == 1 {
 			toks = append(toks, "-")
 			text = "(- " + text + ")"
@@ -122,7 +157,8 @@ func VerifH_C03_Precedence() {
 		}
 	}
 	plain := join(toks, func(int) string { return " " })
-	paren := parenthesise(operands, ops)
+	paren := parenthesiseUnion(bare, negs, ops)
+	_ = operands
 	vrt.Reach("c03.precedence")
 	m1, e1 := NewExprMachine(plain, nil)
 	m2, e2 := NewExprMachine(paren, nil)
